@@ -27,6 +27,10 @@ func init() {
 
 // boundaryCoef: the first n digits of a word boundary (possibly divided by a power of ten), +- a few units
 func (g *Gen) boundaryCoef() *big.Int {
+	if g.r.Intn(5) == 0 {
+		c, _ := g.wordCoefRandom()
+		return c
+	}
 	return g.boundaryCoefOf(boundaryWords[g.r.Intn(len(boundaryWords))])
 }
 
